@@ -102,6 +102,7 @@ class ClusterLiveFam(Family):
     oracle = "clusterlive.oracle"
     header = 0
     timeout = 3000
+    shrink_oracle_failures = False      # the liveness verdicts presuppose that the script delivered everything
 
     def corpus(self):
         d = os.path.join(core.VERIF, "corpus", "clusterlive")
